@@ -493,7 +493,8 @@ struct BigInt {
             ++index;
         }
 
-        while (index_ > index) {
+        // Clear every word above the copied ones (index is at least 1 here).
+        while (index_ >= index) {
             storage_[index_] = 0;
             --index_;
         }
